@@ -108,6 +108,7 @@ class KeyWorld:
             self.wt = wt
         self.kind = start
         self.nchild = 0
+        self.npath = seed % 6            # consecutive histories start with consecutive path shapes
 
     # -------------------------------------------------------------------------------------------------------------
     @property
@@ -153,14 +154,15 @@ class KeyWorld:
         k = self.subj
         kind = self.kind
         rng = self.rng
-        if c in ('deepcopy',):
-            return None, copy.deepcopy(k)
-        if c == 'unpickle':
-            return None, pickle.loads(pickle.dumps(k))
+        if c == 'copy':
+            how = rng.random()
+            return None, copy.deepcopy(k) if how < 0.4 else (pickle.loads(pickle.dumps(k)) if how < 0.8 else copy.copy(k))
         if c == 'repr':
             out = [repr(k), str(k)]
             if kind in ('key', 'hdkey'):
-                out += [bytes(k), k.hex(), k.as_hex(), k.as_bytes()]
+                out += [bytes(k), k.hex(), k.as_hex(), k.as_bytes(), k.address(), k.hash160, k.public_hex, k.public_byte,
+                        k.public_uncompressed_hex, k.public_point(), k.address_obj, k.address_obj.as_dict(), repr(k.address_obj),
+                        k.public_compressed_byte]
             elif kind == 'sig':
                 out += [bytes(k), k.hex()]
             return out, None
@@ -174,9 +176,6 @@ class KeyWorld:
                 return [k.as_dict(include_private=True), k.as_json(include_private=True)], None
             if c == 'info':
                 return captured(k.info), None
-            if c == 'address':
-                return [k.address(), k.hash160, k.public_hex, k.public_byte, k.public_uncompressed_hex, k.public_point(),
-                        k.address_obj, k.address_obj.as_dict(), repr(k.address_obj), k.public_compressed_byte], None
             if c == 'encrypt':
                 return k.encrypt('correct horse'), None
             if c == 'public':
@@ -204,6 +203,24 @@ class KeyWorld:
                 else:
                     new = k.child_public(i) if how < 0.5 else k.subkey_for_path("M/%d" % i if k.is_private else "%d" % i)
                 self._descend(lambda sh: sh.child_private(i, hardened=hard))
+                return None, new
+            if c in ('public_path', 'public_root'):
+                # the public root 'M': every path shape, every hardened marker, string and list form
+                mark = rng.choice(["'", 'h', 'H', 'p', 'P'])
+                a, b = rng.choice([0, 44, 84, 48]), rng.choice([0, 1, 2 ** 31 - 1])
+                i, j = rng.choice([0, 1, 5]), rng.choice([0, 7, 2 ** 31 - 1])
+                if c == 'public_root':
+                    levels = []
+                else:
+                    shape = self.npath % 6
+                    self.npath += 1 + rng.randrange(2)
+                    levels = [['%d' % i, '%d' % j], ['%d%s' % (a, mark), '%d%s' % (b, mark)], ['%d%s' % (a, mark)],
+                              ['%d%s' % (a, mark), '%d%s' % (b, mark), '%d' % i], ['%d' % i, '%d%s' % (a, mark)], ['%d' % i]][shape]
+                path = ['M'] + levels
+                self.desc.setdefault('paths', []).append('/'.join(path))
+                new = k.subkey_for_path(path if rng.random() < 0.3 else '/'.join(path))
+                if levels:
+                    self._descend(lambda sh: sh.subkey_for_path(['m'] + levels))
                 return None, new
             if c in ('public_master', 'public_master_priv'):
                 new = k.public_master(as_private=(c == 'public_master_priv'))
@@ -300,9 +317,14 @@ WALLET_KINDS = [('hd_master', 'segwit'), ('hd_acct_priv', None), ('single_wif', 
                 ('hd_master', 'legacy'), ('hd_acct_priv_wif', None), ('single_hex', None), ('ms_pub_priv_pub', None), ('hd_unhardened_account', None),
                 ('hd_master', 'p2sh-segwit'), ('hd_xprv', None), ('single_key', None), ('ms_priv_priv_pub', None), ('hd_short_hardened', None),
                 ('hd_generated', None), ('single_hdkey', None), ('ms_acctpriv_pub', None), ('ms_single_keys', 'legacy'), ('hd_other_depth', None),
-                ('hd_passphrase', None), ('hd_purpose', None)]
+                ('hd_passphrase', None), ('hd_purpose', None),
+                # wallets that are not private at their main key and acquire private keys later (call import_private)
+                ('watch_acct_import', None), ('watch_single_import', None), ('watch_ms_import', None), ('watch_master_import', None),
+                ('watch_acct_import', None), ('watch_single_import', None)]
+IMPORT_ROUTES = ('watch_acct_import', 'watch_single_import', 'watch_ms_import', 'watch_master_import')
 MAY_REFUSE = ('hd_other_depth',)         # creation routes the library may legitimately refuse
-W_FILLERS = ['get_key', 'new_key', 'new_account', 'key_lookup', 'mainkey_key', 'wif_priv', 'as_dict_priv', 'keys_priv', 'send', 'reopen']
+W_FILLERS = ['get_key', 'new_key', 'new_account', 'key_lookup', 'mainkey_key', 'wif_priv', 'as_dict_priv', 'keys_priv', 'send', 'reopen',
+             'import_private']
 W_VIEWS = ['repr', 'as_dict', 'info', 'wif_pub', 'public_master', 'keys_as_dict', 'wk_repr', 'wk_as_dict', 'wk_public',
            'tx_views', 'tx_save', 'addresses']
 W_WATCH_BATTERY = ['as_dict_priv', 'wif_priv', 'keys_priv', 'public_master', 'wk_repr', 'mainkey_key', 'as_dict', 'send', 'tx_save']
@@ -342,6 +364,8 @@ class WalletWorld:
         self.tx = None
         self.nwatch = 0
         self.cosigner_priv = None
+        self.master = None
+        self.nimport = 4 if route in IMPORT_ROUTES else seed % 5       # (import routes start with the unrelated keys)
         self.scheme = 'single' if route.startswith('single') else ('ms' if route.startswith('ms') else 'hd')
         kw = {'witness_type': wt}          # creation arguments, reused (with the exported keys) for the watch-only wallet
         if route == 'hd_master':
@@ -403,6 +427,22 @@ class WalletWorld:
                 b = sk()
                 self.cosigner_priv = b
                 keys = [sk(), b.public()]
+        elif route in ('watch_acct_import', 'watch_master_import'):
+            self.master = HDKey(network=net, witness_type=wt)
+            keys = self.master.public_master(witness_type=wt)
+            if rng.random() < 0.5:
+                keys = keys.wif()
+        elif route == 'watch_single_import':
+            self.master = HDKey(network=net, witness_type=wt)
+            keys = rng.choice([self.master.public(), self.master.public_hex, self.master.wif_public()])
+            self.scheme = 'single'
+        elif route == 'watch_ms_import':
+            mk = lambda: HDKey(network=net, witness_type=wt, multisig=True)
+            self.master, self.cosigner_priv = mk(), mk()
+            keys = [self.master.public_master_multisig(witness_type=wt), self.cosigner_priv.public_master_multisig(witness_type=wt)]
+            kw['sigs_required'] = 2
+            kw['cosigner_id'] = 0
+            self.scheme = 'ms'
         else:
             raise NotImplementedError(route)
         if self.scheme == 'single':
@@ -471,6 +511,34 @@ class WalletWorld:
             return []
         if c == 'new_account':
             w.new_account()
+            return []
+        if c == 'import_private':
+            # the wallet acquires private keys after its creation: unrelated keys, private keys of its own public keys,
+            # the private master key of a watch-only wallet
+            from bitcoinlib.keys import HDKey
+            self.nimport += 1
+            v = self.nimport % 5
+            m = self.master
+            if self.scheme == 'ms':
+                w.import_key(rng.choice([m, m.wif_private()]) if m is not None else HDKey(network=self.net, multisig=True))
+            elif v == 0 or (m is None and v in (2, 3, 4)):
+                w.import_key(HDKey(network=self.net, witness_type=self.wt).wif_key())                    # unrelated plain WIF
+            elif v == 1:
+                ik = HDKey(network=self.net, witness_type=self.wt).subkey_for_path(rng.choice(["m/7'/3", "m/0", "m/84'/0'/0'/0/1"]))
+                w.import_key(rng.choice([ik, ik.wif_private()]))                                         # unrelated derived xprv
+            elif self.scheme == 'single':
+                w.import_key(rng.choice([m, m.wif_key(), m.private_hex]))                                # the key of the wallet itself
+            elif v == 2:
+                row = [r for r in w.keys(depth=w.key_depth) if r.path and r.path[0] in 'mM'][0]
+                rel = row.path.split('/')[1:] if row.path[0] == 'M' else None
+                acc = m.public_master(witness_type=self.wt, as_private=True)
+                ik = acc.subkey_for_path(rel) if rel else m.subkey_for_path(row.path)
+                w.import_key(rng.choice([ik, ik.wif_private()]))                                         # private key of an address key
+            elif v == 3:
+                acc = m.public_master(witness_type=self.wt, as_private=True)
+                w.import_key(rng.choice([acc, acc.wif_private()]))                                       # private account key
+            else:
+                (w.import_master_key if rng.random() < 0.5 else w.import_key)(rng.choice([m, m.wif_private()]))   # private master
             return []
         if c == 'key_lookup':
             for row in w.keys()[:14]:
@@ -650,7 +718,7 @@ def wallet_history(job):
     return {'rec': {'kind': 'wallet', 'steps': steps}, 'where': where, 'setup_error': None, 'wkind': [ww.route, ww.wt], 'nsecrets': len(ww.secrets)}
 
 
-def gen_wallet_history(rng, n):
+def gen_wallet_history(rng, n, route=None):
     """A seeded prefix of n calls (fillers and views); then every public view once in seeded order on the wallet as the
     history left it (earlier calls - also earlier views - may have changed cached objects); then every public view
     again, each on a freshly opened handle; then watch-only wallets built from every public export of a fresh handle,
@@ -664,6 +732,9 @@ def gen_wallet_history(rng, n):
         if c == 'send':
             has_tx = True
         hist.append(c)
+    if route in IMPORT_ROUTES:
+        hist[1:1] = ['import_private', rng.choice(['new_key', 'get_key', 'import_private'])]
+        hist += ['import_private', 'new_key']
     battery = list(W_VIEWS)
     rng.shuffle(battery)
     if not has_tx:
